@@ -8,8 +8,12 @@ T="contract-based deductive verification: WP-style VC generation over go/ssa + S
 claimed={
  "C05": dict(text="Runtime half only: the default error encoder writes exactly one header and one body, the status is the one the response object reports, plain errors become a 500 fault, service errors map through the flag table, decoding-error constructors give 400/415 (lemmas over the table). Declared errors are generated code and are not covered.",
              ref="§3 C05", technique=T),
+ "C09": dict(text="Three mechanisms only: (1) the structural hash functions contain no order-dependent range over a map (commutativity obligation for every map range in hashUserType/hashObject), (2) File.Render leaves an existing SkipExist file untouched (ghost file-system model: no mkdir/open/write reached), (3) comparators handed to sort.Slice order the slice being sorted. Template rendering, directory clean-up and process-level repeatability are not covered.",
+             ref="§3 C09", technique=T),
  "C11": dict(text="RunDSL: the four phases are global (ghost phase automaton: every WalkSets/prepare/validate/finalize call-site precondition is a barrier obligation), every root registered before the run completes all four phases when nil is returned, finalization never starts on a failed design. The environment (WalkSets callbacks, set runners) and the dependency sort Roots() are assumed contracts; Roots() additionally has a bounded stand-in (all digraphs <= 4 roots x all registration orders), labelled bounded and not counted as proved.",
              ref="§3 C11", technique=T+"; bounded exhaustive execution for Roots()"),
+ "C13": dict(text="Stated parts: permutation invariance of the hash (call-site precondition of sort.Slice checked on the real comparator bodies), run-to-run determinism (no order-dependent map range), freshness of every node DupAttribute / ValidationExpr.Dup / MetaExpr.Dup allocate and their frames (nothing pre-existing is written). DupType's frame is assumed (trusted) for the mutual recursion. No global injectivity of the hash, no termination.",
+             ref="§3 C13", technique=T),
  "C15": dict(text="Encoder/decoder agreement through the Content-Type header actually set, JSON fall-back, non-nil encoder, request decoder selection and 415 chain, proved for all header/context values against an uninterpreted mime.ParseMediaType with audited axioms.",
              ref="§3 C15", technique=T),
  "C16": dict(text="goa's layer of the router: every value stored by Vars is the captured segment decoded exactly once under its registered name, wildcard rewrite and ResolvePattern are inverse (string-theory lemma), Handle registers the rewritten pattern, the not-found handler writes one 404 fault body. chi's dispatch is an assumed contract.",
